@@ -364,6 +364,16 @@ def run(ctx):
              "7 single-bin pile-ups of 1100 reads, the witnesses of Regions.v; %d runs on real BAMs" % (len(files), nreal))
     mism, viol = ctx.corr("process+forward(real constants, pysam)", PRE_PROC, cases, shard=60, nontrivial=lambda o: not isinstance(o["impl_regions"], tuple) and len(o["impl_regions"]) > 1)
     ctx.corr_report("process+forward(real constants, pysam)", mism, viol, keyfn=proc_key)
+    # the one corner proc_prop exempts (theorem C05_no_alignment_lost_*: `~ iq_corner whole a`) is a genuine loss: report it under its own key
+    for _term, o in cases:
+        out = o["impl_regions"]
+        if isinstance(out, tuple): continue
+        seen = set(i for _, ids in out for i in ids)
+        lost = [a for a in o["alignments(start,end,id,flag,ref,mapq)"] if a[2] not in seen and a[0] % o["constants"][0] == 0 and a[1] == a[0] + 1]
+        if lost:
+            ctx.violation("C05:one-base-alignment-on-bin-boundary", "a one-base alignment on the first base of a cluster that starts on a bin boundary is handed to no sub-region",
+                          {"alignments(start,end,id,flag,ref,mapq)": o["alignments(start,end,id,flag,ref,mapq)"][:6], "lost": lost, "regions": [r for r, _ in out], "high_memory": o["high_memory"]})
+            break
     ctx.assume.append("htslib/pysam fetch(chr, lo, hi) returns exactly the records overlapping [lo, hi) in file order (the emulation used for the exhaustive stream is compared with real BAM files on the structured stream)")
     ctx.assume.append("input BAM records are coordinate-sorted and have reference_end > reference_start (htslib's bam_endpos); placed unmapped records (reference_end None) are outside the model")
 
